@@ -47,6 +47,36 @@ pub struct Case {
     /// survives between two serialisations)
     #[serde(default)]
     pub serialise_midway: bool,
+    /// process environment while the program runs (set before, restored after; one run at a time per process):
+    /// the locale variables a library might be tempted to consult. None = variable removed.
+    #[serde(default)]
+    pub env: Vec<(String, Option<String>)>,
+}
+
+struct EnvGuard(Vec<(String, Option<String>)>);
+
+impl EnvGuard {
+    fn apply(env: &[(String, Option<String>)]) -> EnvGuard {
+        let saved = env.iter().map(|(k, _)| (k.clone(), std::env::var(k).ok())).collect();
+        for (k, v) in env {
+            match v {
+                Some(v) => std::env::set_var(k, v),
+                None => std::env::remove_var(k),
+            }
+        }
+        EnvGuard(saved)
+    }
+}
+
+impl Drop for EnvGuard {
+    fn drop(&mut self) {
+        for (k, v) in self.0.drain(..) {
+            match v {
+                Some(v) => std::env::set_var(&k, v),
+                None => std::env::remove_var(&k),
+            }
+        }
+    }
 }
 
 #[derive(Clone, Copy)]
@@ -250,12 +280,13 @@ impl Prop for C09 {
         for _ in 0..n_adds {
             let group = *rng.pick(&[0x01u8, 0x01, 0x01, 0x02, 0x04, 0x05]);
             let (name, value) = match rng.below(10) {
-                0 => ("attributes-charset".to_string(), MValue::Charset(gen_ascii(rng, 8))),
-                1 => ("attributes-natural-language".to_string(), MValue::NaturalLanguage(gen_ascii(rng, 5))),
+                // re-adding a reserved name, occasionally with a value at or beyond the 15-bit / 16-bit length marks
+                0 => ("attributes-charset".to_string(), MValue::Charset(if rng.chance(1, 12) { "c".repeat(*rng.pick(&[32_767usize, 32_768, 40_000, 65_535])) } else { gen_ascii(rng, 8) })),
+                1 => ("attributes-natural-language".to_string(), MValue::NaturalLanguage(if rng.chance(1, 12) { "l".repeat(*rng.pick(&[32_767usize, 32_768, 40_000, 65_535])) } else { gen_ascii(rng, 5) })),
                 2 if puri => ("printer-uri".to_string(), MValue::Uri(format!("ipp://{}/q", gen_ascii(rng, 6)))),
                 2 | 3 if !puri => ("job-uri".to_string(), MValue::Uri(format!("ipp://h/jobs/{}", rng.below(1000)))),
                 3 | 4 => ("job-id".to_string(), MValue::Integer(gen_i32(rng))),
-                5 => (rng.pick(&["requesting-user-name", "job-name", "document-format", "last-document", "requested-attributes", "limit", "which-jobs", "my-jobs", "compression", "document-name"]).to_string(), simple_value(rng)),
+                5 => (rng.pick(&["requesting-user-name", "job-name", "document-format", "last-document", "requested-attributes", "limit", "which-jobs", "my-jobs", "compression", "document-name", "system-uri", "printer-id", "document-uri", "resource-id", "notify-subscription-id", "job-ids", "output-device-uuid", "document-number", "ipp-attribute-fidelity", "job-k-octets"]).to_string(), simple_value(rng)),
                 _ => (gen_ascii(rng, 14) + "k", simple_value(rng)),
             };
             adds.push((group, name, value));
@@ -282,12 +313,30 @@ impl Prop for C09 {
             tail_op_groups.push(attrs);
         }
         let serialise_midway = rng.chance(1, 6);
-        Case { uri, entry, adds, instances: 4, front_groups, tail_op_groups, serialise_midway }
+        // 1 program in 4 runs under a seeded locale environment
+        let mut env = Vec::new();
+        if rng.chance(1, 4) {
+            for k in ["LANG", "LC_ALL", "LC_MESSAGES", "LANGUAGE"] {
+                if rng.chance(1, 2) {
+                    let v = *rng.pick(&["C", "POSIX", "C.UTF-8", "en_US.UTF-8", "fr_FR", "de_DE@euro", "pt_BR.ISO-8859-1", "zh_CN.GB18030", "", "tlh", "en_US.UTF-8@x", "sr_RS.UTF-8@latin"]);
+                    env.push((k.to_string(), Some(v.to_string())));
+                } else if rng.chance(1, 2) {
+                    env.push((k.to_string(), None));
+                }
+            }
+        }
+        Case { uri, entry, adds, instances: 4, front_groups, tail_op_groups, serialise_midway, env }
     }
 
     fn run(&self, case: &Case, record: bool) -> RunReport {
+        // environment axis: set for the duration of the run, restored when the guard drops (worker processes execute
+        // one run at a time)
+        let _env = EnvGuard::apply(&case.env);
         let mut rep = RunReport::default();
         rep.count(&format!("entry.{}", entry_name(&case.entry)), 1);
+        for (k, v) in &case.env {
+            rep.count(&format!("env.{}.{}", k, if v.is_some() { "set" } else { "unset" }), 1);
+        }
         rep.count("further_adds", case.adds.len() as u64);
         let mut h = Fnv::default();
         h.bytes(serde_json::to_string(&(&case.entry, &case.adds)).unwrap_or_default().as_bytes());
@@ -375,6 +424,14 @@ impl Prop for C09 {
         if c.serialise_midway {
             out.push(Case { serialise_midway: false, ..c.clone() });
         }
+        if !c.env.is_empty() {
+            out.push(Case { env: vec![], ..c.clone() });
+            for i in 0..c.env.len() {
+                let mut e = c.env.clone();
+                e.remove(i);
+                out.push(Case { env: e, ..c.clone() });
+            }
+        }
         for i in 0..c.adds.len() {
             let mut a = c.adds.clone();
             a.remove(i);
@@ -397,7 +454,7 @@ impl Prop for C09 {
     }
 
     fn rule(&self) -> String {
-        "Each run executes on a fresh OS thread whose HashMap keys derive from the run seed (getrandom interposed), builds a seeded program — one of 12 entry points (10 operation builders, IppRequestResponse::new with/without URI, new_response) with seeded optional parameters, then 0-12 further attributes_mut().add() calls in seeded order incl. re-adding the reserved names and job-uri when no printer-uri exists, (1 program in 12 makes 13-40 of them), in 1 of 6 programs a non-operation group inserted at the front of the group list through groups_mut(), in 1 of 8 a second operation group pushed at the end through groups_mut(), and in 1 of 6 a to_bytes() call between the adds and that surgery — four times (four fresh map key sets), serialises each with to_bytes() and reads the attribute names of every group with the reference tokenizer (a target attribute that ended up in a later operation group still counts as present). Oracle = the statement: first delimiter 0x01; attributes-charset first; attributes-natural-language second; printer-uri third if present, else job-uri third if present; job-id fourth when printer-uri and job-id are both present. distinct_nontrivial = distinct (program, observed order per instance) hashes among runs whose operation group has >= 4 attributes."
+        "Each run executes on a fresh OS thread whose HashMap keys derive from the run seed (getrandom interposed) and, in 1 run of 4, under a seeded locale environment (LANG / LC_ALL / LC_MESSAGES / LANGUAGE set to well-formed and odd values or removed), builds a seeded program — one of 12 entry points (10 operation builders, IppRequestResponse::new with/without URI, new_response) with seeded optional parameters, then 0-12 further attributes_mut().add() calls in seeded order incl. re-adding the reserved names and job-uri when no printer-uri exists, (1 program in 12 makes 13-40 of them), in 1 of 6 programs a non-operation group inserted at the front of the group list through groups_mut(), in 1 of 8 a second operation group pushed at the end through groups_mut(), and in 1 of 6 a to_bytes() call between the adds and that surgery — four times (four fresh map key sets), serialises each with to_bytes() and reads the attribute names of every group with the reference tokenizer (a target attribute that ended up in a later operation group still counts as present). Oracle = the statement: first delimiter 0x01; attributes-charset first; attributes-natural-language second; printer-uri third if present, else job-uri third if present; job-id fourth when printer-uri and job-id are both present. distinct_nontrivial = distinct (program, observed order per instance) hashes among runs whose operation group has >= 4 attributes."
             .into()
     }
     fn assumptions(&self) -> Vec<String> {
